@@ -229,7 +229,12 @@ def replay(ctx, payload):
 LEVEL_TEXT = ('A checker for the counter protocol is proved sound in Coq for every behaviour of the opaque conditions, and is run inside '
               'Coq (vm_compute) on the skeletons of all 73 registered transformations, regenerated from the C++ sources on every run: '
               'no may-rewrite statement is reachable under the query flag, and an out-of-range counter ends in an error (TransMaxInstanceError, '
-              'except for five listed renaming transformations) with no rewrite; names are registered once.')
-LEVEL_NOTE = ('Relative to the extractor (the only tie; clang_delta cannot be built offline): statement subset parser and conservative may-rewrite '
-              'closure, loops unrolled once. C++ semantics are not modelled. Trusted: Coq kernel, skeleton semantics.')
+              'except for five listed renaming transformations) with no rewrite; --warn-on-counter-out-of-bounds changes that only for the '
+              'transformations the tool\'s help text names; the helper checkCounterValidity has the truth table the skeletons assume; the driver '
+              'never opens the output under the query flag; names are registered once. The counter itself: a model of the int extraction used for '
+              '--counter= / --to-counter= is proved to read every argument as exactly the integer it denotes or to refuse it, and is compared on '
+              'every run with the real ClangDelta.cpp compiled verbatim (g++) against a stand-in manager.')
+LEVEL_NOTE = ('Relative to the extractor (the only tie for the transformations; clang_delta cannot be built offline): statement subset parser and '
+              'conservative may-rewrite closure, loops unrolled once. C++ semantics of the transformations are not modelled; the command-line parser '
+              'is run for real (g++, libstdc++ stream semantics) against tools/standins/cxxstubs. Trusted: Coq kernel, skeleton semantics, the stubs.')
 TECHNIQUE = 'Rocq proof of a protocol checker (all oracles) + computation over skeletons extracted from the C++ sources on every run'
